@@ -169,6 +169,15 @@ func runHsrvCase(t *testing.T, c map[string]any, tmp string) map[string]any {
 			return res
 		}
 	}
+	if b, _ := cfg["expired_cache"].(bool); b && "" != certFile {
+		/* A cache created long ago: its certificate's lifespan has run out. */
+		if _, err := os.Stat(certFile); nil != err {
+			if _, err := sstls.GetCertificate("", nil, nil, -time.Hour, certFile); nil != err {
+				res["fatal"] = err.Error()
+				return res
+			}
+		}
+	}
 	var cbAddrs []string
 	for _, a := range anyList(cfg["cbaddrs"]) {
 		cbAddrs = append(cbAddrs, a.(string))
@@ -234,6 +243,9 @@ func runHsrvCase(t *testing.T, c map[string]any, tmp string) map[string]any {
 				break
 			}
 			tc.Write(hxd(am["req"]))
+			if b, _ := am["halfclose"].(bool); b { /* printf 'GET ...' | openssl s_client: request sent, then close_notify */
+				tc.CloseWrite()
+			}
 			tc.SetReadDeadline(time.Now().Add(time.Duration(1000) * time.Millisecond))
 			var buf bytes.Buffer
 			b := make([]byte, 65536)
@@ -286,6 +298,9 @@ func runHsrvCase(t *testing.T, c map[string]any, tmp string) map[string]any {
 			}
 			rr := httptest.NewRecorder()
 			hctx, hcancel := context.WithTimeout(context.Background(), 300*time.Millisecond)
+			if b, _ := am["cancelled"].(bool); b { /* the client's FIN was seen before the handler got going */
+				hcancel()
+			}
 			func() {
 				defer func() {
 					if p := recover(); nil != p {
@@ -383,6 +398,10 @@ func runHsrvCase(t *testing.T, c map[string]any, tmp string) map[string]any {
 		case "tmpl": /* edit / remove the template file */
 			if v, ok := am["c"].(string); ok {
 				os.WriteFile(tmplf, hxd(v), 0600)
+				if b, _ := am["keep_mtime"].(bool); b { /* an edit within the clock's granularity, or by a tool which restores times */
+					mt := time.Unix(1600000000, 0)
+					os.Chtimes(tmplf, mt, mt)
+				}
 			} else {
 				os.Remove(tmplf)
 			}
